@@ -197,7 +197,7 @@ def _run_history(case):
                     v = await be.expire(c[1], c[2]); r = ["none"] if v is None else ["bool", bool(v)]
                 elif op == "get_expire": r = ["int", int(await be.get_expire(c[1]))]
                 elif op == "incr":
-                    v = await be.incr(c[1], c[2], expire=c[3] or None); r = ["none"] if v is None else ["int", int(v)]
+                    v = await be.incr(c[1], c[2], expire=c[3] or (0 if c[2] % 2 else None)); r = ["none"] if v is None else ["int", int(v)]
                 elif op == "set_lock": r = ["bool", bool(await be.set_lock(c[1], c[2], c[3]))]
                 elif op == "unlock":
                     v = await be.unlock(c[1], c[2]); r = ["none"] if v is None else ["int", int(v)]
